@@ -296,9 +296,10 @@ PROPS['C14'] = dict(
     assumptions=COMMON_ASSUME + ['scale s = max(|p0|,|p1|,|p1-p0|, vm*T, 1); velocity/acceleration/jerk scales are the requested limits',
                                  'a request that the generator rejects (return value <= 0) is outside the statement and is not judged',
                                  'the trapezoid final velocity is drawn in the direction of travel (a trapezoid cannot end moving backwards)'],
-    units=lambda tier, seed: [Unit('traj', 'exec/C14.cc', ['a.c', 'math.c', 'trajtrap.c', 'trajbell.c'], tape_len=64)],
-    plan={'quick': dict(rc_procs=10, rc_cases=15000, fuzz_procs=6, fuzz_secs=25),
-          'thorough': dict(rc_procs=8, rc_cases=300000, fuzz_procs=8, fuzz_secs=240)},
+    units=lambda tier, seed: [Unit('traj', 'exec/C14.cc', ['a.c', 'math.c', 'trajtrap.c', 'trajbell.c'], tape_len=64, enum=True)],
+    plan={'quick': dict(rc_procs=8, rc_cases=20000, fuzz_procs=4, fuzz_secs=25, enum_shards=6, enum_tier=0),
+          'thorough': dict(rc_procs=6, rc_cases=300000, fuzz_procs=6, fuzz_secs=240, enum_shards=8, enum_tier=1)},
+    has_enum=True,
     tolerances={'boundary_state': '1e-9*scale', 'continuity': '1e-7*scale', 'limits': '1e-9 relative', 'derivative_link': '1e-5*scale + 64u*scale/h (+ jm h^2 for cubic segments)'},
     technique='property-based testing with validity predicates over generated feasible requests (boundary states, limits, continuity at all phase boundaries, derivative consistency); rapidcheck tapes + libFuzzer',
     level_text='generated requests covering all planning branches, judged by predicates with stated tolerances; sampling, not proof',
